@@ -161,6 +161,8 @@ def corpus(tier, seed):
     for i in inputs:
         if rng.random() < 0.1:
             i["awkward"] = rng.randrange(10**6)
+        if i["kind"] in ("model", "sbt", "combine") and rng.random() < 0.4:
+            i["share"] = True
         if i["kind"] in ("model", "sbt") and rng.random() < 0.5:
             i["dict_order"] = rng.randrange(10**6)      # every parameter dictionary (outer and inner) written in its own key order
     return inputs
@@ -199,7 +201,19 @@ def call_work(inp):
         order_rng.shuffle(ks)
         return {k: (reorder(d[k]) if isinstance(d[k], dict) else d[k]) for k in ks}
 
+    made = []           # every PreferenceInterval handed to the library, with a snapshot taken at creation: arguments are not to be modified
+    shared = {}
+
     def mk(sup):
+        key = json.dumps(sorted(sup.items()))
+        if inp.get("share") and key in shared:
+            return shared[key]                      # the caller passes one object wherever the same interval is meant (blocs sharing a slate's interval)
+        iv = _mk(sup)
+        made.append((iv, dict(iv.interval), set(iv.zero_cands), set(iv.non_zero_cands), list(iv.candidates) if hasattr(iv, "candidates") else None))
+        shared[key] = iv
+        return iv
+
+    def _mk(sup):
         return PreferenceInterval({nm(c): (s * fs if fs != 1 else s) for c, s in sup.items()})
 
     def interval_trace(op, obj, slates, coh, W):
@@ -316,6 +330,9 @@ def call_work(inp):
         t["error"] = type(ex).__name__
         t["_errmsg"] = str(ex)[:160]
         out.append(t)
+    mutated = [1 for iv, a, z, nz, cs in made if dict(iv.interval) != a or set(iv.zero_cands) != z or set(iv.non_zero_cands) != nz]
+    if mutated and out and not out[0]["error"]:
+        out[0]["error"] = "ArgumentModified"         # a PreferenceInterval passed in is no longer what the caller built
     for t in out:
         t["_inp"] = inp
     return out, [(w, ok, d, inp) for w, ok, d in pyc]
